@@ -15,7 +15,8 @@ CHECKS = {
        "error budget, plus a brute-force definition oracle over each window.",
   note="OpenCV box filters are modelled as zero-border window sums (validated by the correspondence run on integer data where "
        "float32 sums are exact); rasterio.fill.fillnodata is a parameter of the model (its output is fed to the model); "
-       "numpy std/percentile enter through the block normalisation pair (n0, n1) taken from the code.",
+       "numpy std/percentile enter through the block normalisation pair (n0, n1) taken from the code."
+       ' Input strata added from the seeded-change rounds: kernels up to 19 x 21 on fully valid blocks, sources negative throughout, block normalisation compared with its definition.',
   tech="Lean 4 proof (field_simp/ring/linarith over Q, list induction) + bit-exact differential correspondence run", ref='7 C01'),
  'C02': dict(
   text="Proof (Lean 4) over exact rationals: if ref = a x + b on the jointly valid pixels of a window, gain-offset OLS returns "
@@ -35,7 +36,8 @@ CHECKS = {
        "(partial). In decimal geometry value oracles avoid exactly coinciding pixel edges (GDAL float noise changes validity "
        "there, also on dyadic grids whose pixel size is not a power of two: GDAL multiplies by an inexact inverse geotransform); "
        "dyadic grids with power-of-two pixels cover them exactly. The whole-image pipeline is an executable model that is "
-       "differentially tested; the theorems are per pixel.",
+       "differentially tested; the theorems are per pixel."
+       ' Input strata added from the seeded-change rounds: non-square pixels, flat source patches and isolated valid pixels (in-painted parameters), 8-bit sources with a partly semi-transparent alpha band, the cubic / cubic-spline kernels.',
   tech="Lean 4 proof (algebra over Q, list induction) + constructed-oracle differential runs", ref='7 C02'),
  'C03': dict(
   text="Proof (Lean 4): a corrected pixel is valid only if the source pixel is, unconditionally, on both processing grids "
@@ -49,7 +51,8 @@ CHECKS = {
        "up-sampling: subset always, equality under the hypotheses; plus the resampler validity rules against GDAL.",
   note="Known finding D17 (open): gain-offset without in-painting loses an isolated valid pixel (degenerate window; witness theorem "
        "gain_offset_single_point_no_fit). GDAL validity rules R1 (average) / R2 (centre rule for up-sampling) are modelled and measured; no-gap tiling is C06's; "
-       "re-masking after rounding is C13's. The converse is proved per pixel from explicit premises, not as one end-to-end theorem.",
+       "re-masking after rounding is C13's. The converse is proved per pixel from explicit premises, not as one end-to-end theorem."
+       ' Input strata added from the seeded-change rounds: tie geometries, alpha sources with semi-transparent valid pixels, exactly constant source patches with in-painting on.',
   tech="Lean 4 proof (order/field facts over Q, list induction) + differential mask comparison on real fusions", ref='7 C03'),
  'C04': dict(
   text="Proof (Lean 4) on the block fan-out machine (4 locks, per-block straight-line program, any number of threads, any "
@@ -65,7 +68,8 @@ CHECKS = {
        "band-specific masks) are bit-identical to the single-threaded run; free-running 1/2/4/16 threads; compare/stats likewise.",
   note="Races inside GDAL below the proxies, the GIL and memory visibility are outside the model. The controller serialises "
        "worker threads, so only interleavings at yield points (lock acquire/release, first dataset access, fit, apply, job end) are "
-       "explored - which is all that matters when every shared access is under a lock, and that premise is checked per access.",
+       "explored - which is all that matters when every shared access is under a lock, and that premise is checked per access."
+       ' Added from the seeded-change rounds: lock-set discipline (some one controlled lock held at every access to a file; locks the code creates during a run come from a factory), schedules on objects that already did a single-threaded call, a free-running stress leg (switch interval 1 us) for races between byte-codes. The lock-set check sees Python-level locks only.',
   tech="Lean 4 proof about a scheduler state machine + trace validation of real threads under a controlled scheduler", ref='7 C04'),
  'C05': dict(
   text="Proof (Lean 4): overlap_for_kernel = ceil(k/2) = radius + 1; the kernel window of every pixel within one pixel of a "
@@ -89,7 +93,8 @@ CHECKS = {
        "bilinear/source grid, cubic-spline differences confined to one processing pixel of a seam; overlap_for_kernel vs model; and "
        "multi-block real fusions against the whole-image model (Model/FuseImage.lean), which has no blocks at all, and at every pixel - "
        "seams included - against the block model (what the block that writes a pixel computes from what it read; fuseimgblk op).",
-  note="gain-blk-offset and in-painting have a per-block term and are excluded (partial), as the property states.",
+  note="gain-blk-offset and in-painting have a per-block term and are excluded (partial), as the property states."
+       ' Known finding D24 (open): down-sampling methods other than `average` are partition dependent (recorded signatures: cubic; bilinear on the reference grid).',
   tech="Lean 4 proof (omega on windows, list congruence) + partition-pair differential runs", ref='7 C05'),
  'C06': dict(
   text="Proof (Lean 4): for all origins, pixel sizes, image sizes, block lengths s>0 and overlaps v>=0 the processing-grid "
@@ -129,7 +134,8 @@ CHECKS = {
        "and requiring bit-identical corrected image (float32/NaN, integer types with non-zero nodata, float with numeric nodata "
        "outputs), parameter image and comparison statistics; and by from_rio_dataset vs readPx.",
   note="How GDAL exposes masks (alpha honoured only for 1/3-band Byte/UInt16 + alpha) is GDAL's rule; WarpedVRT mask handling "
-       "is not modelled.",
+       "is not modelled."
+       ' Encodings exercised: NaN / numeric / non-float32 numeric nodata, internal mask (hidden 0, 3.4e38, -1e30, NaN, random), mask + nodata tag, side-car .msk, alpha (opaque and partly semi-transparent); south-up storage x encoding (known finding D19, open: an internal mask is lost through WarpedVRT).',
   tech="Lean 4 proof (case analysis, list congruence) + bit-identity differential runs across encodings", ref='7 C08'),
  'C09': dict(
   text="Proof (Lean 4) on the same machine with fault plans: a failed job makes the caller's outcome `raised` (fail_loud); "
@@ -181,7 +187,8 @@ CHECKS = {
        "on images written by real fusions, each with 2 of 5 tilings and threads 1/2/4: every figure vs the exact model (pstats), "
        "figures equal across tilings, CLI JSON = API.",
   note="Bands holding +-inf (R2 with zero TSS) are outside the rational model and skipped in the value comparison. std is "
-       "compared squared.",
+       "compared squared."
+       ' Since round 4 the +-inf bands are compared with their IEEE definitions (finding D20, fixed in /repo); thresholds outside [0, 1]; tiles without valid pixels inside the data window.',
   tech="Lean 4 proof (commutative-monoid fold invariance, algebra over Q) + differential runs", ref='7 C12'),
  'C13': dict(
   text="Proof (Lean 4): round-half-even is within half a unit and ties go to even (rhe_nearest, rhe_tie_even); a valid float32 "
@@ -264,7 +271,8 @@ CHECKS = {
        "reference/both bit-identical (dyadic geometry), RasterCompare(corrected, reference) re-selects the fusion's bands; "
        "combine_profiles vs the model on generated profiles.",
   note="Partial: WarpedVRT (north-up re-projection, CRS changes), rotated and cross-CRS inputs are exercised, not modelled; "
-       "south-up storage is only generated on dyadic geometry (a flipped decimal grid is an ulp off the north-up one).",
+       "south-up storage is only generated on dyadic geometry (a flipped decimal grid is an ulp off the north-up one)."
+       ' Known finding D21 (open): with different CRSs and the source grid as processing grid the corrected image is written on the re-projected source grid.',
   tech="Lean 4 proof of the decision logic (+ corollary of the matcher theorem) + differential runs", ref='7 C18'),
  'C19': dict(
   text="Proof (Lean 4) of the front-end logic: per-key precedence command line > file > default (merge_precedence), file keys "
@@ -292,7 +300,8 @@ CHECKS = {
        "source-tie: boundedFixed is bounded_window_slices' np.clip / np.fmax arithmetic (src_C20_bounded). "
        "Tied to the code by ~4000 reads (exhaustive per-axis windows, 4 dtype/nodata/mask/band variants), ~200 writes and 50 "
        "writes of blocks with invalid pixels into internal-mask / numeric-nodata datasets, compared pixel by pixel.",
-  note="GDAL read/write of an in-range window is trusted to transfer pixels faithfully; dtype conversion on write belongs to C13.",
+  note="GDAL read/write of an in-range window is trusted to transfer pixels faithfully; dtype conversion on write belongs to C13."
+       ' Findings D22 (multi-band block with conversion) and D23 (window=None on decimal grids) were fixed in /repo; legs for both, for rotated / sheared / south-up reads and for values near a numeric nodata value.',
   tech="Lean 4 proof (omega over integer windows, list extensionality) + exhaustive small-window differential run", ref='7 C20'),
 }
 NA_REASON = 'check not built yet in this round (planned: see DESIGN.md section 7); nothing is claimed for it'
